@@ -42,6 +42,25 @@
 (*                    is run against a DNS server answering the address    *)
 (*                    query with a (ad/noad/nxdomain/servfail) and the     *)
 (*                    TLSA query with tlsa; recs is what is published      *)
+(*                    With disc.cname # "-" the MX name is a CNAME: "secure" *)
+(*                    (whole chain signed), "initial" (only the zone of    *)
+(*                    the MX name signed), "insecure"; disc.ctlsa is the   *)
+(*                    answer to the TLSA query at the canonical name       *)
+(*                    (which publishes one DANE-EE record whose data       *)
+(*                    matches disc.cmatch), disc.tlsa / recs the answer at *)
+(*                    the original name (RFC 7672 2.2.2: canonical name    *)
+(*                    first, original name when nothing secure is there).  *)
+(*             lookup "target": as "disc", but the round is a delivery     *)
+(*                    attempt of the real remote target (MX lookup,        *)
+(*                    attemptMX, STARTTLS to a scripted server) for an MX  *)
+(*                    host with an internationalized name in A-label form; *)
+(*                    mx_auth.dane is called by the target, the levels are *)
+(*                    whatever the target computes.                        *)
+(*             sys    (per history) the certificate chains are ALSO valid  *)
+(*                    under the platform's trust store (the CA is a        *)
+(*                    Web-PKI root of the process).  Neither Prop nor Rule *)
+(*                    reads it: Web-PKI validity never stands in for a     *)
+(*                    TLSA match.                                           *)
 (*   output  out = one [auth, refuse, temp] per round                      *)
 (*             auth   the policy reports the connection as authenticated   *)
 (*             refuse the policy returns an error (no delivery over this   *)
@@ -73,7 +92,8 @@ UsageSeq == <<0, 1, 2, 3, 4, 255>>
 SelSeq   == <<0, 1, 2, 255>>
 MTypeSeq == <<0, 1, 2, 3, 255>>
 MatchSeq == <<"leaf", "int", "root", "none">>
-NoDisc   == [a |-> "-", tlsa |-> "-"]
+NoDisc   == [a |-> "-", tlsa |-> "-", cname |-> "-", ctlsa |-> "-", cmatch |-> "-"]
+PlainDisc(a, t) == [a |-> a, tlsa |-> t, cname |-> "-", ctlsa |-> "-", cmatch |-> "-"]
 KindSeq  == <<"EE", "TA", "UN">>
 ChainSeq == <<"leaf", "leaf_int", "leaf_int_root", "expired", "wrongname">>
 
@@ -132,32 +152,32 @@ Row(ch, hs, lk, recs, disc, lv) ==
    mxl |-> MxSeq[(lv % 3) + 1], tll |-> IF hs THEN TlSeq[((lv \div 3) % 3) + 1] ELSE "none"]
 Wire == {"ok", "wire"}
 
-H1(r) == [mode |-> "seq", rounds |-> <<r>>]      \* a fresh delivery object asked about one MX
+H1(r, sys) == [mode |-> "seq", rounds |-> <<r>>, sys |-> sys]      \* a fresh delivery object asked about one MX
 
 (* written as predicates on `in` so that TLC enumerates the rows one by one *)
 InMulti ==
   \/ \E ms \in MS, ch \in Chains, salt \in Salts, lk \in Wire :
        in = H1(Row(ch, TRUE, lk, Concretise(ms, salt + 3 * ChainIdx(ch)), NoDisc,
-                   (SumW(ms, 1) + salt + ChainIdx(ch)) % 9))
+                   (SumW(ms, 1) + salt + ChainIdx(ch)) % 9), (SumW(ms, 1) + salt) % 2 = 0)
   \/ \E ms \in MS, salt \in Salts, lk \in Wire :
-       in = H1(Row("leaf_int", FALSE, lk, Concretise(ms, salt), NoDisc, (SumW(ms, 1) + salt) % 9))
+       in = H1(Row("leaf_int", FALSE, lk, Concretise(ms, salt), NoDisc, (SumW(ms, 1) + salt) % 9), FALSE)
 
 InSingle ==
-  \/ \E i \in DOMAIN AllRaw, mt \in Matches, ch \in Chains, lk \in Wire :
-       in = H1(Row(ch, TRUE, lk, <<Rec(AllRaw[i], mt)>>, NoDisc, (i + ChainIdx(ch)) % 9))
+  \/ \E i \in DOMAIN AllRaw, mt \in Matches, ch \in Chains, lk \in Wire, sys \in BOOLEAN :
+       in = H1(Row(ch, TRUE, lk, <<Rec(AllRaw[i], mt)>>, NoDisc, (i + ChainIdx(ch)) % 9), sys)
   \/ \E i \in DOMAIN AllRaw, mt \in Matches, lk \in Wire :
-       in = H1(Row("leaf_int", FALSE, lk, <<Rec(AllRaw[i], mt)>>, NoDisc, i % 9))
+       in = H1(Row("leaf_int", FALSE, lk, <<Rec(AllRaw[i], mt)>>, NoDisc, i % 9), FALSE)
 
 InLookup ==
   \E ch \in {"leaf_int_root", "wrongname"}, h \in BOOLEAN, lk \in {"notfound", "error"}, lv \in 0..8 :
-    in = H1(Row(ch, h, lk, <<>>, NoDisc, lv))
+    in = H1(Row(ch, h, lk, <<>>, NoDisc, lv), FALSE)
 
 (* discovery sub-machine: address lookup (with its AD bit) and TLSA lookup *)
 DiscA    == {"ad", "noad", "nxdomain", "servfail"}
 DiscTLSA == {"recs_ad", "recs_noad", "nodata", "nxdomain", "servfail"}
 InDisc ==
   \E h \in BOOLEAN, mt \in {"leaf", "none"}, a \in DiscA, t \in DiscTLSA, lv \in 0..8 :
-    in = H1(Row("leaf_int", h, "disc", <<[u |-> 3, s |-> 1, m |-> 1, match |-> mt]>>, [a |-> a, tlsa |-> t], lv))
+    in = H1(Row("leaf_int", h, "disc", <<[u |-> 3, s |-> 1, m |-> 1, match |-> mt]>>, PlainDisc(a, t), lv), FALSE)
 
 EE(mt) == [u |-> 3, s |-> 1, m |-> 1, match |-> mt]
 TA(mt) == [u |-> 2, s |-> 0, m |-> 1, match |-> mt]
@@ -165,14 +185,30 @@ TA(mt) == [u |-> 2, s |-> 0, m |-> 1, match |-> mt]
 LevelRecs == {EE("leaf"), EE("none"), TA("int"), TA("root"), TA("none"),
               [u |-> 1, s |-> 0, m |-> 1, match |-> "leaf"], [u |-> 4, s |-> 0, m |-> 1, match |-> "leaf"]}
 InLevels ==
-  \/ \E lv \in 0..8, lk \in Wire, ch \in Chains, rec \in LevelRecs :
-       in = H1(Row(ch, TRUE, lk, <<rec>>, NoDisc, lv))
+  \/ \E lv \in 0..8, lk \in Wire, ch \in Chains, rec \in LevelRecs, sys \in BOOLEAN :
+       in = H1(Row(ch, TRUE, lk, <<rec>>, NoDisc, lv), sys)
   \/ \E lv \in 0..8, lk \in Wire, r1 \in LevelRecs, r2 \in LevelRecs :
-       in = H1(Row("leaf_int", TRUE, lk, <<r1, r2>>, NoDisc, lv))
+       in = H1(Row("leaf_int", TRUE, lk, <<r1, r2>>, NoDisc, lv), (lv % 2) = 1)
+
+(* the MX name is a CNAME (RFC 7672 2.2.2).  With only the initial zone signed *)
+(* the canonical name has nothing secure to offer: no-data / NXDOMAIN there.   *)
+CnameKinds == {"secure", "initial", "insecure"}
+InCname ==
+  \E h \in BOOLEAN, mt \in {"leaf", "none"}, cmt \in {"leaf", "none"}, ck \in CnameKinds,
+     ct \in DiscTLSA, t \in DiscTLSA, lv \in {0, 7} :
+    /\ (ck = "initial" => ct \in {"nodata", "nxdomain"})
+    /\ in = H1(Row("leaf_int", h, "disc", <<EE(mt)>>,
+                   [a |-> "ad", tlsa |-> t, cname |-> ck, ctlsa |-> ct, cmatch |-> cmt], lv), FALSE)
+
+(* delivery attempts of the real remote target to an MX with an IDN host name *)
+InTarget ==
+  \E h \in BOOLEAN, rec \in {EE("leaf"), EE("none"), TA("int"), TA("none"), [u |-> 1, s |-> 0, m |-> 1, match |-> "leaf"]},
+     a \in {"ad", "servfail"}, t \in {"recs_ad", "nodata", "nxdomain", "servfail"} :
+    in = H1(Row("leaf_int", h, "target", <<rec>>, PlainDisc(a, t), 0), FALSE)
 
 (* histories: 2 or 3 MX candidates served by the same delivery object, each *)
 (* one of these situations (its own records, chain, DNS answers)            *)
-DRow(ch, hs, rec, a, t, lv) == Row(ch, hs, "disc", <<rec>>, [a |-> a, tlsa |-> t], lv)
+DRow(ch, hs, rec, a, t, lv) == Row(ch, hs, "disc", <<rec>>, PlainDisc(a, t), lv)
 Scen == << DRow("leaf_int", TRUE, EE("leaf"), "ad", "recs_ad", 0),            \* authenticated (EE)
            DRow("leaf_int", TRUE, EE("none"), "ad", "recs_ad", 7),            \* usable, no match: refused
            DRow("leaf_int", TRUE, EE("leaf"), "ad", "nodata", 4),             \* no records
@@ -184,22 +220,32 @@ Scen == << DRow("leaf_int", TRUE, EE("leaf"), "ad", "recs_ad", 0),            \*
            DRow("leaf_int", TRUE, [u |-> 1, s |-> 0, m |-> 1, match |-> "leaf"], "ad", "recs_ad", 7) >> \* unusable only
 InHistory ==
   \/ \E n \in 2..3 : \E sc \in [1..n -> DOMAIN Scen] :
-       in = [mode |-> "seq", rounds |-> [k \in 1..n |-> Scen[sc[k]]]]
+       in = [mode |-> "seq", rounds |-> [k \in 1..n |-> Scen[sc[k]]], sys |-> FALSE]
   \/ \E sc \in [1..2 -> DOMAIN Scen] :
-       in = [mode |-> "overlap", rounds |-> [k \in 1..2 |-> Scen[sc[k]]]]
+       in = [mode |-> "overlap", rounds |-> [k \in 1..2 |-> Scen[sc[k]]], sys |-> FALSE]
 
 (* what a discovery amounts to (RFC 7672 2.1.1, 2.2): a failed lookup is an  *)
 (* error, a secure denial or an insecure answer is "no records"              *)
+IsDisc(i) == i.lookup \in {"disc", "target"}
 Eff(i) ==
   IF i.lookup = "wire" THEN [i EXCEPT !.lookup = "ok"]     \* a signed RRset, delivered as published
-  ELSE IF i.lookup # "disc" THEN i
-  ELSE LET a == i.disc.a  t == i.disc.tlsa IN
-       [i EXCEPT !.lookup = IF a = "servfail" \/ (a = "ad" /\ t = "servfail") THEN "error"
-                            ELSE IF a = "nxdomain" THEN "notfound" ELSE "ok",
-                 !.recs   = IF a = "ad" /\ t = "recs_ad" THEN i.recs ELSE <<>>]
+  ELSE IF ~IsDisc(i) THEN i
+  ELSE LET a == i.disc.a  t == i.disc.tlsa  ck == i.disc.cname  ct == i.disc.ctlsa
+           (* answer under the original MX name *)
+           orig == [i EXCEPT !.lookup = IF t = "servfail" THEN "error" ELSE "ok",
+                             !.recs   = IF t = "recs_ad" THEN i.recs ELSE <<>>]
+       IN IF ck = "-" THEN
+            [i EXCEPT !.lookup = IF a = "servfail" \/ (a = "ad" /\ t = "servfail") THEN "error"
+                                 ELSE IF a = "nxdomain" THEN "notfound" ELSE "ok",
+                      !.recs   = IF a = "ad" /\ t = "recs_ad" THEN i.recs ELSE <<>>]
+          ELSE IF ck = "insecure" THEN [i EXCEPT !.lookup = "ok", !.recs = <<>>]
+          ELSE IF ck = "secure" /\ ct = "servfail" THEN [i EXCEPT !.lookup = "error", !.recs = <<>>]
+          ELSE IF ck = "secure" /\ ct = "recs_ad"
+               THEN [i EXCEPT !.lookup = "ok", !.recs = <<[u |-> 3, s |-> 1, m |-> 1, match |-> i.disc.cmatch]>>]
+          ELSE orig          \* nothing secure at the canonical name: the original name decides
 (* with an insecure address answer the statement leaves open whether TLSA is *)
 (* queried at all, so only "no authentication" is demanded there             *)
-Free(i) == i.lookup = "disc" /\ i.disc.a = "noad"
+Free(i) == IsDisc(i) /\ ((i.disc.cname = "-" /\ i.disc.a = "noad") \/ i.disc.cname = "insecure")
 
 -----------------------------------------------------------------------------
 (* What a chain presents; which certificates are CA certificates; when the *)
@@ -281,7 +327,7 @@ Observed(h) == IF h.mode = "overlap" THEN {Len(h.rounds)} ELSE DOMAIN h.rounds
 ViolH(h, o) == UNION {Viol(h.rounds[k], o[k]) : k \in Observed(h)}
 PropH(h, o) == ViolH(h, o) = {}
 
-Init == InMulti \/ InSingle \/ InLookup \/ InDisc \/ InLevels \/ InHistory
+Init == InMulti \/ InSingle \/ InLookup \/ InDisc \/ InCname \/ InLevels \/ InTarget \/ InHistory
 Next == FALSE /\ UNCHANGED in      \* one state per input (run with CHECK_DEADLOCK FALSE)
 Spec == Init /\ [][Next]_vars
 
@@ -295,10 +341,10 @@ RuleExact ==
       /\ o.refuse <=> \/ i.lookup = "error"
                       \/ (i.lookup = "ok" /\ i.recs # <<>> /\ ~i.hs)
                       \/ (i.lookup = "ok" /\ UsableRecs(i) # {} /\ ~AuthCond(i))
-TypeOK == /\ in.mode \in {"seq", "overlap"} /\ Len(in.rounds) \in 1..3
+TypeOK == /\ in.mode \in {"seq", "overlap"} /\ Len(in.rounds) \in 1..3 /\ in.sys \in BOOLEAN
           /\ \A k \in DOMAIN in.rounds :
                LET r == in.rounds[k] IN
-                 /\ r.chain \in Chains /\ r.hs \in BOOLEAN /\ r.lookup \in {"ok", "wire", "notfound", "error", "disc"}
+                 /\ r.chain \in Chains /\ r.hs \in BOOLEAN /\ r.lookup \in {"ok", "wire", "notfound", "error", "disc", "target"}
                  /\ r.mxl \in Range(MxSeq) /\ r.tll \in Range(TlSeq) /\ (~r.hs => r.tll = "none")
                  /\ Len(r.recs) <= MaxRecs
                  /\ \A x \in RecSet(r) : x.match \in Matches
